@@ -10,6 +10,12 @@ one-directional agreement `eval_static_le` carries every definite answer over.
 -/
 namespace Casm
 
+/-- the value of a symbol slot as `eval_simple` reads it -/
+def slotVal (defs : Defs) (r : Nat) : Except String Value :=
+  match defs.symbols.getD r none with
+  | some s => .ok s.value
+  | none => .ok .unknown
+
 /-- the evaluation environment of `eval_simple` -/
 def simpleEnv (d : Decls) (defs : Defs) : EvalEnv :=
   { var := fun level path =>
@@ -17,9 +23,7 @@ def simpleEnv (d : Decls) (defs : Defs) : EvalEnv :=
       else if level == 0 && (match path.head? with | some n => isAsmBuiltinName n | none => false) then
         .ok (.asmBuiltin (path.head?.getD ""))
       else match d.symbols.tryGetByName [] level path with
-        | some r => match defs.symbols.getD r none with
-          | some s => .ok s.value
-          | none => .ok .unknown
+        | some r => slotVal defs r
         | none => .ok .unknown
     fn := fun _ _ _ => .ok .unknown
     asm := fun _ _ => .ok .unknown }
